@@ -548,7 +548,7 @@ pub fn run(tier: Tier, seed: u64) -> i32 {
         check_inner("rand", &g, &input, l)
     });
     ctx.finish(&check_case, RULE, ASSUMPTIONS, &|l| {
-        for k in ["provider_as_item_source_comparisons", "two_different_contexts_reached_one_consumer_and_accepted", "try_configure_error", "static_equivalent_pairs", "accepted", "rejected"] {
+        for k in ["configured_vs_static_comparisons", "provider_as_item_source_comparisons", "two_different_contexts_reached_one_consumer_and_accepted", "try_configure_error", "static_equivalent_pairs", "accepted", "rejected"] {
             if l.counters.get(k).copied().unwrap_or(0) == 0 {
                 return Err(format!("class '{}' is empty", k));
             }
